@@ -22,8 +22,10 @@ VERIF = os.path.dirname(os.path.dirname(os.path.abspath(__file__)))
 REPO = os.environ.get("INOVESA_REPO", "/repo")
 LEAN = os.path.join(VERIF, "lean")
 CACHE = os.path.join(VERIF, ".cache")
-EVID = os.path.join(VERIF, "evidence")
-REPLAYS = os.path.join(VERIF, "replays")
+# (seeded_eval.py points both elsewhere while a seeded change is applied to /repo, so that the committed evidence
+#  always comes from runs against the unchanged tree)
+EVID = os.environ.get("VERIF_EVIDENCE_DIR") or os.path.join(VERIF, "evidence")
+REPLAYS = os.environ.get("VERIF_REPLAY_DIR") or os.path.join(VERIF, "replays")
 PY = sys.executable
 
 GUARD = "INOVESA_VERIF"
